@@ -1136,7 +1136,9 @@ example : ClockOk (Msg.init 0 [{ maxRtx := 1 }]) gevs ∧
   the first use is still in flight no translation at all can give the full observation lists in the same order.
 
 Scope `SimF.RunInF` (threaded, decidable): `setNow` (monotone), `prepare`, `submit` of a Confirmable with `T > 0` inside the
-no-wrap range D7 — with or without NSTART room, at any instant —, `rxAck`, `rxRst` at any instant; sessions `SessOk`. -/
+no-wrap range D7 — with or without NSTART room, at any instant —, `rxAck`, `rxRst`, `rxBad` (an ACK with an invalid / request
+code — for S an `ack`: the BAD_RESPONSE NACK is not an outcome of S) and `connect` at any instant; sessions `SessOk`.  Not in the
+scope: NON messages and cancel-by-token (no counterpart in S), `hold` / `disconnect` (as in section (7)). -/
 open Coap.Sim Coap.Sched in
 /-- **m_refines_timer_from** (general form): from any M state satisfying the invariant (delay queues allowed) and any S
 state related to it, for EVERY event list: the runs end in related states, the invariant still holds, and every `send` of
@@ -1203,13 +1205,14 @@ open Coap.Sim Coap.Sched in
 punctual or late, any number of messages and sessions, NSTART-delayed messages included): for every (session, mid), the
 number of FIRST transmissions of the Confirmable — `coap_send`s that passed the NSTART gate at once plus messages that left
 the delay queue — equals the number of outcome NACK-handler calls (TOO_MANY_RETRIES or RST, carrying the sent PDU) plus the
-number of silent completions (an arriving ACK that found the message in the send queue) plus the number of nodes still in the
-send queue.  So a message that has been transmitted is — at every moment — exactly one of: pending, completed by its ACK,
-or reported by ONE NACK.  (`m_single_outcome` adds: accepted = first transmissions + still delayed.) -/
+number of completions without such a NACK (`remC`: an arriving ACK — empty, or with an invalid / request code — that found the
+message in the send queue) plus the number of nodes still in the send queue.  So a message that has been transmitted is — at
+every moment — exactly one of: pending, completed by its ACK, or reported by ONE NACK.  (`m_single_outcome` adds: accepted = first
+transmissions + still delayed.) -/
 theorem m_single_outcome_via_timer (now0 : Nat) (sess : List Msg.Sess) (evs : List Msg.Ev)
     (hs : ∀ se ∈ sess, SessOk se) (hin : SimF.RunInF (Msg.init now0 sess) evs) (s mid : Nat) :
     SimF.tx0C s mid (Msg.run (Msg.init now0 sess) evs).out =
-      nackC s mid (Msg.run (Msg.init now0 sess) evs).out + ackC s mid (Msg.init now0 sess) evs +
+      nackC s mid (Msg.run (Msg.init now0 sess) evs).out + remC s mid (Msg.init now0 sess) evs +
         pendC s mid (Msg.run (Msg.init now0 sess) evs).q.nodes :=
   SimF.conserve_simF (gpar_of sess hs) s mid now0 evs _ (finv_init False _ now0 sess hs)
     (SimF.relF_init _ now0 sess) hin
@@ -1233,7 +1236,11 @@ example : (∀ se ∈ [({ maxRtx := 1 } : Msg.Sess)], SessOk se) ∧ SimF.RunInF
     SimF.txsS (Timer.run (Timer.init 0) (SimF.trRun (Msg.init 0 [{}, {}]) cevs)).outs =
       SimF.txsM (Msg.run (Msg.init 0 [{}, {}]) cevs).out ∧
     SimF.tx0C 0 2 (Msg.run (Msg.init 0 [{}, {}]) cevs).out = 1 ∧
-    pendC 0 2 (Msg.run (Msg.init 0 [{}, {}]) cevs).q.nodes = 1 := by decide
+    pendC 0 2 (Msg.run (Msg.init 0 [{}, {}]) cevs).q.nodes = 1 ∧
+    SimF.RunInF (Msg.init 0 [{}, {}]) (cevs ++ [.connect 1, .rxBad 0 2, .setNow 9000, .prepare]) ∧
+    remC 0 2 (Msg.init 0 [{}, {}]) (cevs ++ [.connect 1, .rxBad 0 2, .setNow 9000, .prepare]) = 1 ∧
+    pendC 0 2 (Msg.run (Msg.init 0 [{}, {}]) (cevs ++ [.connect 1, .rxBad 0 2, .setNow 9000, .prepare])).q.nodes = 0 := by
+  decide
 
 open Coap.Sim Coap.Sched in
 /-- non-vacuity of `m_refines_timer_from`: the initial state with two sessions satisfies `GPar`, `FInv` and `RelF`; so does the
